@@ -106,6 +106,8 @@ type c13Sched struct {
 
 var c13S *c13Sched
 
+var c13StuckCount int
+
 func c13Goid() int64 {
 	var buf [64]byte
 	n := runtime.Stack(buf[:], false)
@@ -633,7 +635,16 @@ func TestVerifC13(t *testing.T) {
 		if err := json.Unmarshal(line, &c); err != nil {
 			return map[string]string{"panic": "bad case: " + err.Error()}
 		}
-		return c13RunCase(c)
+		if c13StuckCount >= 5 {
+			// circuit breaker: after five settle timeouts in one process the remaining schedules are handed
+			// back unevaluated; the driver re-runs them unless the timeouts are confirmed deadlocks
+			return map[string]any{"skipped": true}
+		}
+		r := c13RunCase(c)
+		if r.Stuck != "" {
+			c13StuckCount++
+		}
+		return r
 	})
 }
 
@@ -1535,6 +1546,13 @@ func TestVerifC13EndpointFine(t *testing.T) {
 		if err := json.Unmarshal(line, &c); err != nil {
 			return map[string]string{"panic": "bad case: " + err.Error()}
 		}
-		return c13RunFCase(c)
+		if c13StuckCount >= 5 {
+			return map[string]any{"skipped": true}
+		}
+		r := c13RunFCase(c)
+		if r.Stuck != "" {
+			c13StuckCount++
+		}
+		return r
 	})
 }
